@@ -274,6 +274,19 @@ int main(int argc, char **argv)
 
   /* ---- data access with generated arguments ---- */
   static unsigned char bx[1 << 16], bc[1 << 16], src[1 << 16];
+  /* reverse look-ups, before anything is written; only ranges whose last sample exists, so that the call returns
+   * also on a library without the C19 repair */
+  for (size_t i = 0; i < vec.size(); i++) {
+    const char *f = vec[i].c_str();
+    unsigned sp = gd_spf(C, f); gd_off64_t eof = gd_eof64(C, f); gd_off64_t bof = gd_bof64(C, f);
+    (void)X->SamplesPerFrame(f); (void)X->EoF(f); (void)X->BoF(f);
+    if (gd_error(C) || sp == 0) continue;
+    for (int k = 0; k < 6; k++) {
+      double v = (double)rnd(300) - 20 + rnd(4) * 0.25; gd_off64_t a = bof / sp + rnd(2) + 1, b = a + 1 + rnd(4);
+      if ((b + 1) * sp - 1 <= eof)
+        BOTH(S("FrameNum ") + f, dbl(X->FrameNum(f, v, a, b)), dbl(gd_framenum_subset64(C, f, v, a, b)));
+    }
+  }
   for (int r = 0; r < rounds; r++) {
     std::vector<S> &pool = rnd(4) ? vec : all;
     const char *f = pool[rnd(pool.size())].c_str();
@@ -287,13 +300,6 @@ int main(int argc, char **argv)
     BOTH(S("Tell ") + f, num(X->Tell(f)), num(gd_tell64(C, f)));
     { static const int whs[4] = {GD_SEEK_SET, GD_SEEK_CUR, GD_SEEK_END, GD_SEEK_SET | GD_SEEK_WRITE}; int wh = whs[rnd(4)];
       BOTH(S("Seek ") + f, num(X->Seek(f, ff, fs, wh)), num(gd_seek64(C, f, ff, fs, wh))); }
-    { double v = (double)rnd(300) - 20 + rnd(4) * 0.25; gd_off64_t a = rnd(4), b = rnd(3) ? 0 : rnd(9);
-      /* spf>=2 default-limit look-ups may never return on the unrepaired library (C19): keep to explicit, known ends */
-      gd_off64_t nfr = gd_nframes64(C); unsigned sp = gd_spf(C, f);
-      (void)X->NFrames(); (void)X->SamplesPerFrame(f);   /* keep the two handles' histories identical */
-      if (b && nfr >= b + 3 && sp == 1)
-        BOTH(S("FrameNum ") + f, dbl(X->FrameNum(f, v, a, b)), dbl(gd_framenum_subset64(C, f, v, a, b)));
-    }
     if (rnd(3) == 0) {
       size_t px = X->PutData(f, ff, fs, nf, ns, (DataType)ty, src), pc2 = gd_putdata64(C, f, ff, fs, nf, ns, ty, src);
       BOTH(S("PutData ") + f, num(px), num(pc2));
